@@ -115,6 +115,35 @@ func c09R1(c *Ctx) {
 			}
 		}
 	}
+	// the converse: a token whose introspection returned a nil error is reported active, whatever
+	// its kind and whatever the token_type_hint was (the hint orders the search, it is not a filter)
+	okConv, nConv := true, 0
+	var wConv *Path
+	for _, p := range ex.Paths {
+		if p.Kind != "return" {
+			continue
+		}
+		var etok *Event
+		for _, e := range p.Calls(".IntrospectToken") {
+			if a := e.Arg(1); a != nil && a.IsCall(".Get") && len(a.Args) == 2 && a.Args[1].Key() == tStr("token").Key() {
+				etok = e
+			}
+		}
+		if etok == nil || !p.IsNil(etok.Ret(2)) {
+			continue
+		}
+		nConv++
+		act := false
+		for _, e := range p.Events[etok.Idx:] {
+			if (e.Kind == "lstore" || e.Kind == "store") && e.Name == "Active" && e.Args[1].Key() == tTrue.Key() {
+				act = true
+			}
+		}
+		if !act || p.Classify() != ExitSuccess {
+			okConv, wConv = false, p
+		}
+	}
+	c.Check(okConv && nConv > 0, rule, role, fn, "accepted-means-active", "whenever the inspected token's introspection returned a nil error the endpoint answers Active:true", "an accepted token can be answered as inactive or with an error", wConv)
 	c.Check(okGate && nTok > 0, rule, role, fn, "caller-authenticated", "the inspected token is introspected only for a caller authenticated by a valid, different, active access token or by valid client credentials", whyGate, wGate)
 	c.Check(okActive && nActive > 0, rule, role, fn, "active-needs-success", "an Active:true response is built only after the caller was authenticated and the inspected token's introspection returned a nil error", "Active:true reachable otherwise", wActive)
 }
